@@ -92,6 +92,10 @@ func (n *node) Allowed(p path) bool {
 	return false
 }
 
+// literalWildcardName represents a resource name that is literally "*", as
+// opposed to the wildcard we use for "all names".
+const literalWildcardName = `\*`
+
 // A Rule represents a single, granular RBAC rule.
 type Rule struct {
 	// The API group of this resource. The empty string denotes the core
@@ -154,6 +158,13 @@ func Expand(ctx context.Context, rs ...rbacv1.PolicyRule) ([]Rule, error) { //no
 		for _, g := range r.APIGroups {
 			for _, rsc := range r.Resources {
 				for _, n := range names {
+					// We use the wildcard to mean "all names" (see above), but
+					// rbacv1 has no wildcard for resource names: a literal "*"
+					// in ResourceNames only matches a request for the name
+					// "*". It must not be mistaken for "all names".
+					if len(r.ResourceNames) > 0 && n == wildcard {
+						n = literalWildcardName
+					}
 					for _, v := range r.Verbs {
 						select {
 						case <-ctx.Done():
